@@ -206,3 +206,153 @@ Proof.
          (destruct S1 as [->| ->]; [|rewrite assoc_aset_other by ne]; reflexivity)). }
   unfold regreq_post. rewrite K1, K2, A3, T, I, ILU. reflexivity.
 Qed.
+
+(* ================= oidc.AuthorizationResponse / AccessTokenResponse with a signed ID Token ================= *)
+Lemma pyval_eqb_str_r s v : pyval_eqb v (VStr s) = true -> v = VStr s.
+Proof. destruct v; cbn; try discriminate. intros H. apply str_eqb_eq in H. now subst. Qed.
+
+Lemma all_hold_app a b : all_hold (a ++ b) = all_hold a && all_hold b.
+Proof. apply forallb_app. Qed.
+
+(* one hash rule holds: a textual parameter in the response comes with the claim, and the claim is the left
+   hash of the parameter under the hash that goes with the signing algorithm *)
+Lemma hash_rule_holds lh alg param claim bad m idt :
+  all_hold (hash_rule lh alg param claim bad m idt) = true ->
+  (has param m = true -> has claim idt = true)
+  /\ (forall v, get param m = Some (VStr v) -> get claim idt = Some (VStr (lh (hash_bits alg) v))).
+Proof.
+  unfold all_hold, hash_rule. cbn [forallb fst]. rewrite andb_true_r. intros H.
+  apply andb_true_iff in H as [H1 H2]. split.
+  - intros P. rewrite P in H1. exact H1.
+  - intros v G. rewrite G in H2. destruct (get claim idt) as [h|]; [|discriminate].
+    apply pyval_eqb_str_r in H2. now subst.
+Qed.
+(* ... and conversely *)
+Lemma hash_rule_holds_conv lh alg param claim bad m idt :
+  match get param m with Some (VStr _) | None => true | _ => false end = true ->
+  (forall v, get param m = Some (VStr v) -> get claim idt = Some (VStr (lh (hash_bits alg) v))) ->
+  all_hold (hash_rule lh alg param claim bad m idt) = true.
+Proof.
+  intros T H. unfold all_hold, hash_rule, has, has_key, get in *. cbn [forallb fst]. rewrite andb_true_r.
+  destruct (assoc (PS param) m) as [[| | |v| | |]|]; try discriminate; cbn [implb andb]; [|reflexivity].
+  rewrite (H v eq_refl). cbn [implb andb]. cbn. apply str_eqb_refl.
+Qed.
+
+Lemma get_clear_verified k m :
+  PS k <> verified_id_token -> PS k <> PS "__verified_id_token_hint" -> PS k <> PS "__verified_request" ->
+  get k (clear_verified m) = get k m.
+Proof. intros A B C. unfold get, clear_verified. now rewrite !assoc_adel_other by assumption. Qed.
+Lemma has_clear_verified k m :
+  PS k <> verified_id_token -> PS k <> PS "__verified_id_token_hint" -> PS k <> PS "__verified_request" ->
+  has k (clear_verified m) = has k m.
+Proof. intros A B C. unfold has, has_key. fold (get k (clear_verified m)). fold (get k m). now rewrite get_clear_verified. Qed.
+
+(* verify_id_token on a token whose signature verifies, inside the modelled fragment: accepted exactly when the
+   algorithm policy, the issuer check, the construction of the IdToken, IdToken.verify AND - with check_hash -
+   EACH of the two hash rules hold *)
+Theorem verify_id_token_iff lh issuers ic now ch kw alg p m o s :
+  idt_kw_modelled kw = true -> hash_typed m = true -> get "id_token" m = Some (VStr s) ->
+  hash_alg_modelled alg = true ->
+  (verify_id_token lh issuers ic now ch kw (TJws SigValid alg p) m = Ok o <->
+   idt_alg_allowed kw alg = Ok tt /\ idt_issuer_known issuers p = Ok tt /\ construct ic p = Ok o
+   /\ idtoken_verify ic now kw o = Ok tt
+   /\ (ch = true -> all_hold (at_hash_rule lh alg m o) = true /\ all_hold (c_hash_rule lh alg m o) = true)).
+Proof.
+  intros K T I A. unfold verify_id_token, id_token_open. rewrite K, I, A, T. cbn [negb bind fst snd].
+  destruct (idt_alg_allowed kw alg) as [[]|e|]; cbn [bind];
+    [|split; [discriminate|intros [H _]; discriminate]|split; [discriminate|intros [H _]; discriminate]].
+  destruct (idt_issuer_known issuers p) as [[]|e|]; cbn [bind];
+    [|split; [discriminate|intros (_ & H & _); discriminate]|split; [discriminate|intros (_ & H & _); discriminate]].
+  destruct (construct ic p) as [o'|e|]; cbn [bind];
+    [|split; [discriminate|intros (_ & _ & H & _); discriminate]|split; [discriminate|intros (_ & _ & H & _); discriminate]].
+  destruct (idtoken_verify ic now kw o') as [[]|e|] eqn:V; cbn [bind].
+  - destruct ch.
+    + unfold hash_rules. destruct (run_checks (at_hash_rule lh alg m o' ++ c_hash_rule lh alg m o')) as [[]|e|] eqn:R; cbn [bind].
+      * apply run_checks_iff in R. rewrite all_hold_app in R. apply andb_true_iff in R.
+        split.
+        -- intros H. inversion H; subst o'. split; [reflexivity|]. split; [reflexivity|]. split; [reflexivity|].
+           split; [exact V|]. intros _. exact R.
+        -- intros (_ & _ & H & _). exact H.
+      * split; [discriminate|]. intros (_ & _ & H & _ & Hh). inversion H; subst o'.
+        destruct (Hh eq_refl) as [Ha Hc].
+        assert (X : run_checks (at_hash_rule lh alg m o ++ c_hash_rule lh alg m o) = Ok tt)
+          by (apply run_checks_iff; rewrite all_hold_app, Ha, Hc; reflexivity).
+        rewrite X in R. discriminate.
+      * split; [discriminate|]. intros (_ & _ & H & _ & Hh). inversion H; subst o'.
+        destruct (Hh eq_refl) as [Ha Hc].
+        assert (X : run_checks (at_hash_rule lh alg m o ++ c_hash_rule lh alg m o) = Ok tt)
+          by (apply run_checks_iff; rewrite all_hold_app, Ha, Hc; reflexivity).
+        rewrite X in R. discriminate.
+    + cbn [bind]. split.
+      * intros H. inversion H; subst o'. split; [reflexivity|]. split; [reflexivity|]. split; [reflexivity|].
+        split; [exact V|]. discriminate.
+      * intros (_ & _ & H & _). exact H.
+  - split; [discriminate|]. intros (_ & _ & H & H' & _). inversion H; subst o'. congruence.
+  - split; [discriminate|]. intros (_ & _ & H & H' & _). inversion H; subst o'. congruence.
+Qed.
+
+(* what an ACCEPTING verify_id_token with check_hash means, for any token and message: the token carries a
+   valid signature, and BOTH hash rules hold - independently of each other *)
+Theorem verify_id_token_accepts_only lh issuers ic now kw t m o :
+  verify_id_token lh issuers ic now true kw t m = Ok o ->
+  exists alg p, t = TJws SigValid alg p /\ construct ic p = Ok o /\ idtoken_verify ic now kw o = Ok tt
+    /\ hash_typed m = true
+    /\ all_hold (c_hash_rule lh alg m o) = true /\ all_hold (at_hash_rule lh alg m o) = true.
+Proof.
+  unfold verify_id_token. destruct (idt_kw_modelled kw); cbn [negb]; [|discriminate].
+  destruct (get "id_token" m) as [[| | |s| | |]|]; try discriminate.
+  unfold id_token_open. destruct t as [sg alg p|p|i|]; try discriminate. destruct sg; try discriminate.
+  destruct (hash_alg_modelled alg); [|discriminate]. cbn [bind fst snd].
+  destruct (idt_alg_allowed kw alg) as [[]|e|]; cbn [bind]; try discriminate.
+  destruct (idt_issuer_known issuers p) as [[]|e|]; cbn [bind]; try discriminate.
+  destruct (construct ic p) as [o'|e|] eqn:Ec; cbn [bind]; try discriminate.
+  destruct (idtoken_verify ic now kw o') as [[]|e|] eqn:Ev; cbn [bind]; try discriminate.
+  destruct (hash_typed m) eqn:Et; cbn [negb]; [|discriminate].
+  destruct (run_checks (hash_rules lh alg m o')) as [[]|e|] eqn:R; cbn [bind]; try discriminate.
+  intros H. inversion H; subst o'. apply run_checks_iff in R. unfold hash_rules in R. rewrite all_hold_app in R.
+  apply andb_true_iff in R as [Ra Rc]. exists alg, p. repeat split; try assumption; reflexivity.
+Qed.
+
+(* oidc.AuthorizationResponse.verify: an accepted response that carries an ID Token carries a SIGNED one, the
+   verified token is stored under the marker key, and the two bindings hold each on its own: a code in the
+   response is the one the token's c_hash names, an access token is the one its at_hash names *)
+Theorem authzresp_idt_hashes lh issuers c ic now kw t m m' :
+  oidc_authzresp_verify_idt lh issuers c ic now kw t m = Ok (true, m') -> has "id_token" m = true ->
+  exists alg p o, t = TJws SigValid alg p /\ construct ic p = Ok o
+    /\ m' = aset verified_id_token (VObj o) (clear_verified m)
+    /\ authzresp_verify c kw m = Ok tt /\ idtoken_verify ic now kw o = Ok tt
+    /\ all_hold (c_hash_rule lh alg (clear_verified m) o) = true
+    /\ all_hold (at_hash_rule lh alg (clear_verified m) o) = true
+    /\ (has "code" m = true ->
+        exists v, get "code" m = Some (VStr v) /\ get "c_hash" o = Some (VStr (lh (hash_bits alg) v)))
+    /\ (has "access_token" m = true ->
+        exists v, get "access_token" m = Some (VStr v) /\ get "at_hash" o = Some (VStr (lh (hash_bits alg) v))).
+Proof.
+  unfold oidc_authzresp_verify_idt. intros H I.
+  destruct (authzresp_verify c kw m) as [[]|e|]; cbn [bind] in H; try discriminate.
+  destruct (aud_for_me kw (clear_verified m)) as [mine|e|]; cbn [bind] in H; try discriminate.
+  destruct mine; cbn [negb] in H; [|discriminate].
+  rewrite has_clear_verified in H by ne. rewrite I in H. cbn [negb] in H.
+  destruct (verify_id_token lh issuers ic now true kw t (clear_verified m)) as [o|e|] eqn:V; cbn [bind] in H; try discriminate.
+  inversion H; subst m'. clear H.
+  apply verify_id_token_accepts_only in V as (alg & p & -> & Hc & Hv & Ht & Rc & Ra).
+  exists alg, p, o. repeat split; try assumption; try reflexivity.
+  - intros P. destruct (hash_rule_holds _ _ _ _ _ _ _ Rc) as [_ Hh].
+    unfold hash_typed in Ht. apply andb_true_iff in Ht as [Tc _].
+    rewrite get_clear_verified in Tc by ne.
+    unfold has, has_key in P. fold (get "code" m) in P.
+    destruct (get "code" m) as [[| | |v| | |]|] eqn:G; try discriminate.
+    exists v. split; [reflexivity|]. apply Hh. rewrite get_clear_verified by ne. exact G.
+  - intros P. destruct (hash_rule_holds _ _ _ _ _ _ _ Ra) as [_ Hh].
+    unfold hash_typed in Ht. apply andb_true_iff in Ht as [_ Tt].
+    rewrite get_clear_verified in Tt by ne.
+    unfold has, has_key in P. fold (get "access_token" m) in P.
+    destruct (get "access_token" m) as [[| | |v| | |]|] eqn:G; try discriminate.
+    exists v. split; [reflexivity|]. apply Hh. rewrite get_clear_verified by ne. exact G.
+Qed.
+
+(* oidc.AccessTokenResponse.verify calls verify_id_token WITHOUT check_hash: no hash rule applies, its answer does
+   not depend on the hash function at all *)
+Theorem tokenresp_idt_no_hash_rule lh lh' issuers c ic now kw t m :
+  oidc_tokenresp_verify_idt lh issuers c ic now kw t m = oidc_tokenresp_verify_idt lh' issuers c ic now kw t m.
+Proof. reflexivity. Qed.
